@@ -362,33 +362,63 @@ Proof.
 Qed.
 
 (* ------------------------------------------------------------------ the property *)
+Definition not421 (r : wreply) : bool := negb (dec_value (wr_digits r) =? 421).
+
+Lemma recv_step_other c s r s' : recv c s = (Ok r, s') -> (code r =? 421) = false -> recv_step c s = (Ok r, s').
+Proof. intros R N. unfold recv_step. rewrite R, N. reflexivity. Qed.
+
+Lemma recv_step_421 c s r s' : recv c s = (Ok r, s') -> (code r =? 421) = true -> recv_step c s = (Ok r, closed_conn).
+Proof. intros R N. unfold recv_step. rewrite R, N. reflexivity. Qed.
+
 Theorem recv_frames m : forall rs s tail,
-  forallb (wf_reply m) rs = true ->
+  forallb (wf_reply m) rs = true -> forallb not421 rs = true ->
   stream_of s = render rs ++ tail ->
   exists s', recv_n (length rs) (fixed_cfg m) s = (map (fun r => Ok (expected r)) rs, s') /\
              stream_of s' = tail.
 Proof.
-  induction rs as [|r rs IH]; intros s tail W E.
+  induction rs as [|r rs IH]; intros s tail W N E.
   - cbn. exists s. auto.
-  - cbn [forallb] in W. apply andb_true_iff in W as (Wr & Wrs).
+  - cbn [forallb] in W, N. apply andb_true_iff in W as (Wr & Wrs). apply andb_true_iff in N as (Nr & Nrs).
     unfold render in E. cbn [map concat] in E. rewrite <- app_assoc in E.
     destruct (recv_one m r s _ Wr E) as (s1 & R & A & _).
-    cbn [length recv_n]. rewrite R.
-    destruct (IH s1 tail Wrs A) as (s' & RN & A').
+    cbn [length recv_n]. rewrite (recv_step_other _ _ _ _ R); [|unfold not421 in Nr; apply negb_true_iff in Nr; exact Nr].
+    destruct (IH s1 tail Wrs Nrs A) as (s' & RN & A').
     rewrite RN. exists s'. auto.
+Qed.
+
+Lemma recv_step_closed m : recv_step (fixed_cfg m) closed_conn = (Exn, closed_conn).
+Proof. destruct m as [|m]; [reflexivity|]. destruct m; reflexivity. Qed.
+
+(* a 421 reply is framed like any other; after it the connection is closed: what followed is dropped and every
+   later receive step fails (C13) *)
+Theorem recv_frames_then_421 m rs r s tail k :
+  forallb (wf_reply m) rs = true -> forallb not421 rs = true -> wf_reply m r = true -> not421 r = false ->
+  stream_of s = render (rs ++ [r]) ++ tail ->
+  recv_n (length rs + 1 + S k) (fixed_cfg m) s = (map (fun r => Ok (expected r)) (rs ++ [r]) ++ [Exn], closed_conn).
+Proof.
+  revert s. induction rs as [|r0 rs IH]; intros s W N Wr Nr E.
+  - cbn [app length Nat.add recv_n]. unfold render in E. cbn [app map concat] in E. rewrite app_nil_r in E.
+    destruct (recv_one m r s _ Wr E) as (s1 & R & _).
+    rewrite (recv_step_421 _ _ _ _ R); [|unfold not421 in Nr; apply negb_false_iff in Nr; exact Nr].
+    cbn [recv_n]. rewrite recv_step_closed. reflexivity.
+  - cbn [forallb] in W, N. apply andb_true_iff in W as (W0 & Wrs). apply andb_true_iff in N as (N0 & Nrs).
+    unfold render in E. cbn [app map concat] in E. rewrite <- app_assoc in E.
+    destruct (recv_one m r0 s _ W0 E) as (s1 & R & A & _).
+    cbn [app length Nat.add recv_n]. rewrite (recv_step_other _ _ _ _ R); [|unfold not421 in N0; apply negb_true_iff in N0; exact N0].
+    rewrite (IH s1 Wrs Nrs Wr Nr A). reflexivity.
 Qed.
 
 (* two ways of cutting the same stream into reads give the same replies and keep the same rest *)
 Corollary recv_schedule_irrelevant m rs tail b1 u1 sc1 e1 b2 u2 sc2 e2 :
-  forallb (wf_reply m) rs = true ->
+  forallb (wf_reply m) rs = true -> forallb not421 rs = true ->
   b1 ++ u1 = render rs ++ tail -> b2 ++ u2 = render rs ++ tail ->
   let r1 := recv_n (length rs) (fixed_cfg m) (mkConn b1 (mkT u1 sc1 e1)) in
   let r2 := recv_n (length rs) (fixed_cfg m) (mkConn b2 (mkT u2 sc2 e2)) in
   fst r1 = fst r2 /\ stream_of (snd r1) = stream_of (snd r2).
 Proof.
-  intros W E1 E2.
-  destruct (recv_frames m rs (mkConn b1 (mkT u1 sc1 e1)) tail W E1) as (s1 & R1 & A1).
-  destruct (recv_frames m rs (mkConn b2 (mkT u2 sc2 e2)) tail W E2) as (s2 & R2 & A2).
+  intros W N E1 E2.
+  destruct (recv_frames m rs (mkConn b1 (mkT u1 sc1 e1)) tail W N E1) as (s1 & R1 & A1).
+  destruct (recv_frames m rs (mkConn b2 (mkT u2 sc2 e2)) tail W N E2) as (s2 & R2 & A2).
   cbv zeta. rewrite R1, R2. cbn. split; congruence.
 Qed.
 
